@@ -140,6 +140,42 @@ def pt_sx(pt):
     return ['atom', ATOM_DURATIONS.index(dur), sorted(pt.parameter_names)]
 
 
+def scope_sx(sc):
+    """real scope object -> protocol scope term"""
+    from qupulse.parameter_scope import DictScope, MappedScope, JointScope
+    from qupulse.pulses.range import RangeScope
+
+    def as_int(v):
+        if int(v) != v:
+            raise Unsupported('non-integer constant %r' % (v,))
+        return int(v)
+    if isinstance(sc, DictScope):
+        return ['dict', [[k, as_int(v)] for k, v in sorted(sc._values.items())], sorted(sc._volatile_parameters.keys())]
+    if isinstance(sc, MappedScope):
+        return ['mapped', scope_sx(sc._scope), [[k, expr_sx(e)] for k, e in sorted(sc._mapping.items())]]
+    if isinstance(sc, RangeScope):
+        return ['range', scope_sx(sc._inner), sc._index_name, as_int(sc._index_value)]
+    if isinstance(sc, JointScope):
+        lookup = dict(sc._lookup)
+        if set(lookup) != {'parent_repetition_count', 'child_repetition_count'}:
+            raise Unsupported('joint scope over %s' % sorted(lookup))
+        return ['joint', scope_sx(lookup['parent_repetition_count']), scope_sx(lookup['child_repetition_count'])]
+    raise Unsupported('scope %s' % type(sc).__name__)
+
+
+def table_request(tp, new):
+    """the volatile positions of a TaborProgram as a `tableUpdate` request of the Lean model"""
+    cells = tabor_cells(tp)
+    index = {c: i for i, c in enumerate(cells)}
+    vpos = []
+    deps = []
+    for pos, rd in tp._parsed_program.volatile_parameter_positions.items():
+        vpos.append([index[tabor_cell_of(tp, pos)], expr_sx(rd._expression), scope_sx(rd._scope)])
+        deps.append(sorted(rd.volatile_property.dependencies.keys()))
+    line = sx(['c15', 'table', [[k, int(v)] for k, v in sorted(new.items())], vpos, [cells[c][0] for c in cells]])
+    return line, index, deps
+
+
 def wf_id(waveform) -> int:
     return ATOM_DURATIONS.index(int(waveform.duration))
 
@@ -415,14 +451,24 @@ def run_case_impl(ctx, case: Case, pipelines=PIPELINES):
                         report = None
                     else:
                         before = tabor_cells(prep.tabor)
+                        try:
+                            tline, tindex, tdeps = table_request(prep.tabor, u)
+                        except Unsupported:
+                            tline = None
                         mods = prep.tabor.update_volatile_parameters(dict(u))
                         after = tabor_cells(prep.tabor)
                         upd = tabor_observe(prep.tabor)
                         changed = {c for c in after if after[c] != before[c]}
                         reported = {}
+                        reported_writes = []
                         for pos, entry in mods.items():
                             reported[tabor_cell_of(prep.tabor, pos)] = tuple(int(x) for x in entry)
+                            reported_writes.append((tabor_cell_of(prep.tabor, pos), int(entry[0])))
                         report = (changed, reported, after)
+                        if tline is not None:
+                            requests.append(('table', tline,
+                                             (case, pipeline, j, [after[c][0] for c in after],
+                                              sorted((tindex[c], v) for c, v in reported_writes), tdeps)))
             except Exception as exc:  # noqa
                 broken = (j, type(exc).__name__ + ':' + str(exc)[:120])
                 break
@@ -543,6 +589,16 @@ def resolve_lean(ctx, requests):
             ctx.count('error-stream:%s' % want)
             if got != want:
                 ctx.drift('create_program error class vs QP.C15.createProgram', line, cls, sx(ans)[:300])
+        elif kind == 'table':
+            case, pipeline, j, cells_after, reported, deps = payload
+            m_cells = [int(x) for x in ans[1]]
+            m_mods = sorted((int(a), int(b)) for a, b in ans[2])
+            m_deps = [sorted(d) for d in ans[3]]
+            if m_cells != cells_after or m_mods != reported or m_deps != deps:
+                ctx.drift('TaborProgram.update_volatile_parameters vs QP.C15.tableUpdate (%s, update %d)' % (pipeline, j + 1),
+                          line[:600], sx([cells_after, [list(r) for r in reported], deps])[:400], sx(ans)[:400])
+            else:
+                ctx.count('structural-agreement:table-update')
         elif kind == 'judge':
             case, pipeline, j, obs = payload
             ctx.count('judge:%s:%s' % (pipeline, ans[0] if ans[0] != 'violates' else 'violates-' + ans[1]))
@@ -686,7 +742,7 @@ def random_cases(ctx, n_templates, max_subsets):
 
 def exhaustive_cases(ctx):
     """all two-level nestings over a small expression set x all volatile subsets x all single updates"""
-    exprs = ['2', 'n', 'm', 'n*m', '2*n+m']
+    exprs = ctx.n(['2', 'n', 'n*m', '2*n+m'], ['2', 'n', 'm', 'n*m', '2*n+m', 'n+1'])
     vals = ctx.n([0, 1, 3], [0, 1, 2, 3])
     shapes = [lambda e1, e2: ('rep', e1, ('rep', e2, ('atom', 0))),
               lambda e1, e2: ('rep', e1, ('seq', [('rep', e2, ('atom', 0)), ('atom', 1)])),
@@ -708,9 +764,8 @@ def exhaustive_cases(ctx):
                     for combo in itertools.product(vals, repeat=len(vol)):
                         yield Case(spec, params, vol, [dict(zip(vol, combo))], 'exhaustive')
                         n += 1
-    ctx.exhaustive_spaces.append('3 two-level shapes x count expressions {2,n,m,n*m,2*n+m}^2 x every volatile subset '
-                                 'x every single update with values in %s (%d cases), pipelines none/cleanup/flatten2/tabor'
-                                 % (vals, n))
+    ctx.exhaustive_spaces.append('3 two-level shapes x count expressions %s^2 x every volatile subset x every single '
+                                 'update with values in %s (%d cases)' % (exprs, vals, n))
 
 
 def sequence_cases(ctx, n):
@@ -735,6 +790,29 @@ def sequence_cases(ctx, n):
         yield Case(shape, params, vol, ups, 'partial-update-sequences')
 
 
+def coincide_cases(ctx, n):
+    """volatile counts that are equal at instantiation (n = 0) and differ after an update: equal-looking
+    instrument tables must not be shared (PF-24)"""
+    rng = ctx.fork('coincide')
+    for _ in range(n):
+        e = rng.choice(['n*i+1', 'n*i+m', 'n*i*i+1', 'm+n*i'])
+        inner = rng.choice([
+            ('rep', rng.choice(['2', '3', 'm']), ('seq', [('rep', e, ('atom', 0)), ('atom', 1)])),
+            ('rep', '2', ('seq', [('atom', 2), ('rep', e, ('atom', 0)), ('rep', 'm', ('atom', 1))])),
+            ('seq', [('rep', e, ('atom', 3)), ('rep', 2, ('seq', [('rep', e, ('atom', 0)), ('atom', 1)]))]),
+        ])
+        spec = ('for', 'i', rng.choice([[0, 2], [0, 3], [1, 3]]), inner)
+        names = sorted(spec_params(spec))
+        params = {k: rng.choice([1, 2]) for k in names}
+        params['n'] = 0
+        vol = ['n'] + (['m'] if 'm' in names and rng.random() < 0.5 else [])
+        ups = [{'n': rng.choice([1, 2, 3])}]
+        for _j in range(rng.randint(0, 3)):
+            k = rng.choice(vol)
+            ups.append({k: rng.choice([0, 1, 2, 3]) if k == 'n' else rng.choice([1, 2, 3])})
+        yield Case(spec, params, vol, ups, 'coincide-at-instantiation')
+
+
 # ---------------------------------------------------------------------------------------------
 # the run
 # ---------------------------------------------------------------------------------------------
@@ -749,30 +827,81 @@ def run_cases(ctx, cases, pipelines=PIPELINES, batch=400):
     resolve_lean(ctx, pending)
 
 
+class _Collect(core.Ctx):
+    """run context of a worker process: collects instead of printing / writing replay files"""
+
+    def __init__(self, pid, tier, seed):
+        super().__init__(pid, tier, seed)
+        self.collected = []
+
+    def violation(self, what, replay, found_input=True):
+        self.collected.append((what, replay, found_input))
+
+
+def _worker(args):
+    tier, seed, pipelines, cases = args
+    sub = _Collect('C15', tier, seed)
+    Q()
+    warnings.filterwarnings('ignore')
+    run_cases(sub, cases, pipelines)
+    return {'counters': sub.counters, 'evaluations': sub.evaluations, 'distinct': sub.distinct,
+            'samples': sub.samples, 'violations': sub.collected, 'drifts': sub.drifts,
+            'disagreements': sub.disagreements}
+
+
+def run_cases_parallel(ctx, cases, pipelines=PIPELINES, workers=14, chunk=40):
+    import multiprocessing
+    cases = list(cases)
+    chunks = [(ctx.tier, ctx.seed, pipelines, cases[i:i + chunk]) for i in range(0, len(cases), chunk)]
+    with multiprocessing.get_context('fork').Pool(workers) as pool:
+        for res in pool.imap_unordered(_worker, chunks):
+            for k, v in res['counters'].items():
+                ctx.count(k, v)
+            ctx.evaluations += res['evaluations']
+            ctx.distinct |= res['distinct']
+            for smp in res['samples']:
+                if len(ctx.samples) < 12:
+                    ctx.samples.append(smp)
+            ctx.disagreements += res['disagreements']
+            ctx.drifts.extend(res['drifts'])
+            for what, rec, found in res['violations']:
+                ctx.violation(what, rec, found)
+
+
 def run(ctx: core.Ctx):
     ctx.rule = ('random template trees (depth <= 4) of RepetitionPT/SequencePT/MappingPT/ForLoopPT over 6 atomic pulses with '
                 'count expressions over n,m,p,k (nested, mapped through MappingPT, multiplied, depending on the loop index, '
                 'loop index shadowing a parameter) x EVERY subset of the declared parameters volatile (sampled above a cap '
                 'in quick) x update sequences of 1..5 partial updates with values in {0,1,2,3,4,5,7} x 6 pipelines; plus an '
-                'exhaustive two-level family, a partial-update-sequence family and a malformed stream (missing parameter, '
-                'volatile parameter of an atomic pulse). Non-trivial = the prepared program contains at least one volatile '
-                'node in some pipeline; distinct by canonical (template, parameters, volatile set, updates) line')
+                'exhaustive two-level family, a partial-update-sequence family, a family whose volatile counts coincide at '
+                'instantiation and diverge later, and a malformed stream (missing parameter, volatile parameter of an atomic '
+                'pulse). Non-trivial = the prepared program contains at least one volatile node in some pipeline; distinct by '
+                'canonical (template, parameters, volatile set, updates) line')
     ctx.assumptions = [
         'templates carry no measurement declarations and no parameter constraints (merge condition = single child)',
         'for-loop ranges do not depend on volatile parameters and volatile-dependent counts are positive at '
-        'instantiation (hypotheses of update_eq_fresh; such cases are generated, classified and counted as outside)',
+        'instantiation (hypothesis `inside` of update_eq_fresh; such cases are generated, classified by the model and '
+        'counted as outside)',
         'C15 uses the membership view isVol of get_volatile_parameters; the dict-level model is C13',
-        'Tabor tables, flatten_and_balance and prepare_program_for_advanced_sequence_mode are correspondence-only '
-        '(updated against freshly compiled, on the implementation)',
-        'PF-07 repaired (fixes/PF-07.diff): the model contains the repaired JointScope.get_volatile_parameters',
+        'flatten_and_balance, prepare_program_for_advanced_sequence_mode and the layout of the Tabor tables are '
+        'correspondence-only (updated against freshly compiled, on the implementation); the table update itself is '
+        'modelled (tableUpdate) and compared on the real volatile positions',
+        'PF-07, PF-24, PF-25, PF-26 repaired (fixes/*.diff): the check passes only with these applied',
     ]
     Q()
     for rec in ctx.corpus():
         replay(ctx, rec, from_corpus=True)
         ctx.corpus_replayed += 1
-    run_cases(ctx, exhaustive_cases(ctx), pipelines=('none', 'cleanup', 'flatten2', 'tabor'))
-    run_cases(ctx, sequence_cases(ctx, ctx.n(60, 1500)))
-    run_cases(ctx, random_cases(ctx, ctx.n(120, 4000), ctx.n(6, 16)))
+    if ctx.quick:
+        run_cases(ctx, exhaustive_cases(ctx), pipelines=('none', 'cleanup', 'tabor'))
+        run_cases(ctx, sequence_cases(ctx, 50))
+        run_cases(ctx, coincide_cases(ctx, 12))
+        run_cases(ctx, random_cases(ctx, 100, 6))
+    else:
+        run_cases_parallel(ctx, exhaustive_cases(ctx), pipelines=('none', 'cleanup', 'flatten2', 'tabor', 'cleanup+tabor'))
+        run_cases_parallel(ctx, sequence_cases(ctx, 2500))
+        run_cases_parallel(ctx, coincide_cases(ctx, 400))
+        run_cases_parallel(ctx, random_cases(ctx, 6000, 16))
 
 
 def replay(ctx: core.Ctx, rec: dict, from_corpus: bool = False) -> bool:
